@@ -773,6 +773,76 @@ mod if_alloc {
             }
         }
 
+        #[cfg(futures_intrusive_verif)]
+        impl<MutexType, T> StateReceiveFuture<MutexType, T> {
+            /// Describes the wait node of this future
+            pub fn verif_node(&self) -> crate::verif::NodeSnap {
+                crate::verif::snap_list_node(
+                    &self.wait_node,
+                    &super::super::verif_hooks::describe,
+                )
+            }
+        }
+
+        /// A reference to the state of a shared channel which is not counted
+        /// as sender or receiver (verification hook)
+        #[cfg(futures_intrusive_verif)]
+        pub struct VerifSharedState<MutexType, T>
+        where
+            MutexType: RawMutex,
+            T: Clone + 'static,
+        {
+            inner: alloc::sync::Arc<
+                GenericStateBroadcastChannelSharedState<MutexType, T>,
+            >,
+        }
+
+        #[cfg(futures_intrusive_verif)]
+        impl<MutexType, T> core::fmt::Debug for VerifSharedState<MutexType, T>
+        where
+            MutexType: RawMutex,
+            T: Clone,
+        {
+            fn fmt(&self, f: &mut core::fmt::Formatter) -> core::fmt::Result {
+                f.debug_struct("VerifSharedState").finish()
+            }
+        }
+
+        #[cfg(futures_intrusive_verif)]
+        impl<MutexType, T> VerifSharedState<MutexType, T>
+        where
+            MutexType: RawMutex,
+            T: Clone,
+        {
+            /// As `GenericStateBroadcastChannel::verif_snapshot`, with the
+            /// additional scalars `[.., senders, receivers]`
+            pub fn verif_snapshot(
+                &self,
+                tag_of: &dyn Fn(&T) -> u64,
+            ) -> crate::verif::Snapshot {
+                let mut snap = self.inner.channel.verif_snapshot(tag_of);
+                snap.scalars
+                    .push(self.inner.senders.load(Ordering::SeqCst) as u64);
+                snap.scalars
+                    .push(self.inner.receivers.load(Ordering::SeqCst) as u64);
+                snap
+            }
+        }
+
+        #[cfg(futures_intrusive_verif)]
+        impl<MutexType, T> GenericStateSender<MutexType, T>
+        where
+            MutexType: RawMutex,
+            T: Clone,
+        {
+            /// Returns an uncounted reference to the shared channel state
+            pub fn verif_shared(&self) -> VerifSharedState<MutexType, T> {
+                VerifSharedState {
+                    inner: self.inner.clone(),
+                }
+            }
+        }
+
         // Export parking_lot based shared channels in std mode
         #[cfg(feature = "std")]
         mod if_std {
@@ -811,3 +881,52 @@ mod if_alloc {
 
 #[cfg(feature = "alloc")]
 pub use self::if_alloc::*;
+
+#[cfg(all(futures_intrusive_verif, feature = "alloc"))]
+mod verif_hooks {
+    use super::*;
+    use crate::verif::{
+        snap_list, snap_list_node, waker_id, NodeSnap, Snapshot, NO_VALUE,
+    };
+
+    pub(super) fn describe(
+        entry: &RecvWaitQueueEntry,
+    ) -> (u8, Option<usize>, u64) {
+        let tag = match entry.state {
+            RecvPollState::Unregistered => 0,
+            RecvPollState::Registered => 1,
+        };
+        (tag, waker_id(&entry.task), entry.state_id.0)
+    }
+
+    impl StateId {
+        /// Returns the numeric value of the id
+        pub fn verif_raw(&self) -> u64 {
+            self.0
+        }
+    }
+
+    impl<MutexType: RawMutex, T: Clone>
+        GenericStateBroadcastChannel<MutexType, T>
+    {
+        /// Scalars: `[is_closed, state_id, tag of the stored value]`,
+        /// queue: waiters
+        pub fn verif_snapshot(&self, tag_of: &dyn Fn(&T) -> u64) -> Snapshot {
+            let state = self.inner.lock();
+            let mut snap = Snapshot::default();
+            snap.scalars.push(state.is_closed as u64);
+            snap.scalars.push(state.state_id.0);
+            snap.scalars
+                .push(state.value.as_ref().map_or(NO_VALUE, |v| tag_of(v)));
+            snap_list(&state.waiters, &mut snap, &describe);
+            snap
+        }
+    }
+
+    impl<'a, MutexType, T: Clone> StateReceiveFuture<'a, MutexType, T> {
+        /// Describes the wait node of this future
+        pub fn verif_node(&self) -> NodeSnap {
+            snap_list_node(&self.wait_node, &describe)
+        }
+    }
+}
